@@ -403,7 +403,11 @@ Inductive phase :=
 Inductive step :=
 | SCache (o : cop)
 | SSub                               (* the Subscribe call with its first request *)
-| SPoll.                             (* one poll trigger *)
+| SPoll                              (* one poll trigger *)
+| SAcl (tbl : list (string * string * bool)).
+                                     (* the operator replaces the ACL table; nothing happens
+                                        in the responder (the oracle [allow] of the following
+                                        steps is the checker's business) *)
 
 Section WithACL.
 (** the ACL oracle: ACL.Check(user, target) *)
@@ -503,6 +507,7 @@ Definition run_step (a : aclcfg) (rq : option request) (st : rstate) (s : step)
            send_filter a (fst s), COk)
       | _ => (st, [], COk)
       end
+  | SAcl _ => (st, [], COk)
   end.
 
 Fixpoint run (a : aclcfg) (rq : option request) (st : rstate) (ops : list step)
